@@ -8,6 +8,7 @@
 (*   p4  base in A4; COPY b4->s2 in A2; a patch whose payload fails its digest in A1             *)
 (* "lf" is the (listfile), which every archive contains.                                         *)
 EXTENDS PatchChain
+\* (instances bind the constant Cont of PatchChain to StdWorld in their cfg: CONSTANT Cont <- StdWorld)
 
 WorldNames == <<"n1", "n2", "n3", "n4", "n5", "p1", "p2", "p3", "p4", "lf">>
 Row(f) == [n \in {WorldNames[i] : i \in 1..Len(WorldNames)} |-> IF n \in DOMAIN f THEN f[n] ELSE NoEntry]
